@@ -1,3 +1,4 @@
+import SqlProofs.ClauseShape.Core
 import SqlProofs.AccessorSpec
 import SqlModel.Generated.Tables
 import SqlModel.Splitter
@@ -40,5 +41,15 @@ theorem where_extent_to_closer : type_of% @where_first_extent_close := @where_fi
 theorem where_extent_to_end : type_of% @where_first_extent_end := @where_first_extent_end
 theorem where_each_iteration : type_of% @whereLoop_iter := @whereLoop_iter
 theorem where_none_left_ungrouped : type_of% @where_none_left := @where_none_left
+
+/-- **clause nodes in context, from one checked skeleton to every spelling** (table-independent core; the table itself is decided in
+`SqlPropsSlow/C13Table.lean`): if the skeleton's canonical check evaluates to true, then for every admissible re-spelling (all leaf values
+except punctuation/operators, keyword case, whitespace values) and every sufficient fuel the grouped tree of the re-spelled tokens contains
+the clause node and its accessor returns the re-spelled written parts -/
+theorem identifier_list_of_checked_skeleton : type_of% @Sql.Acc.identList_in_context := @Sql.Acc.identList_in_context
+theorem parameters_of_checked_skeleton : type_of% @Sql.Acc.parameters_in_context := @Sql.Acc.parameters_in_context
+theorem cases_of_checked_skeleton : type_of% @Sql.Acc.cases_in_context := @Sql.Acc.cases_in_context
+theorem comparison_of_checked_skeleton : type_of% @Sql.Acc.comparison_in_context := @Sql.Acc.comparison_in_context
+theorem typed_literal_of_checked_skeleton : type_of% @Sql.Acc.typedLiteral_in_context := @Sql.Acc.typedLiteral_in_context
 
 end Sql.C13
